@@ -268,7 +268,7 @@ func c20Round(c *c20Case, dir string) error {
 					if wr.Intn(3) == 0 {
 						op.Points = []sPoint{{Type: "tombstone", Time: tick(), VBits: math.Float64bits(float64(wr.Intn(2)))}}
 					}
-				case x < 77:
+				case x < 83:
 					// a request the store must refuse (root deletion, self edge, NaN): answered with an error, nothing
 					// acknowledged, and the store goes on serving everybody
 					switch wr.Intn(3) {
@@ -330,6 +330,33 @@ func c20Round(c *c20Case, dir string) error {
 				}
 			}
 		}(w)
+	}
+	// two clients that send nothing but requests the store must refuse, one node points (not a number), one edge
+	// points (a node as its own parent), 150 each, at the same time as everybody else: every one is answered with an
+	// error and the two handlers' error paths run side by side
+	for k := 0; k < 2; k++ {
+		wg.Add(1)
+		go func(k int) {
+			defer wg.Done()
+			rnc, err := nats.Connect(in.url, nats.Timeout(10*time.Second))
+			if err != nil {
+				atomic.AddInt32(&unanswered, 1)
+				return
+			}
+			defer rnc.Close()
+			for i := 0; i < 150; i++ {
+				op := sOp{Kind: "np", Node: "n2", Points: []sPoint{{Type: "value", Time: tick(), VBits: 0x7FF8000000000000}}}
+				if k == 1 {
+					op = sOp{Kind: "ep", Node: "n1", Parent: "n1", Points: []sPoint{{Type: "tombstone", Time: tick()}, {Type: "nodeType", Time: tick(), Text: "group"}}}
+				}
+				if rc, _ := c20Request(rnc, op); rc != 1 {
+					atomic.AddInt32(&unanswered, 1)
+					if rc == 2 {
+						return
+					}
+				}
+			}
+		}(k)
 	}
 	if grow > 0 {
 		wg.Add(1)
